@@ -27,9 +27,14 @@ Inductive ev :=
 | EReady (f : nat)                          (* logged before flush f can have emitted *)
 | EDone (f : nat)                           (* logged after flush f has emitted *)
 | EAttS (body : nat)                        (* upstream received an attempt for this body *)
-| EAttE (body : nat) (kind : N).            (* ... and answers: 0 2xx | 1 4xx | 2 5xx | 3 reset | 4 slow 2xx | 5 slow 5xx | 6 client timeout *)
+| EAttE (body : nat) (kind : N).
+(* kinds: 0 2xx | 1 4xx | 2 5xx | 3 reset | 4 slow 2xx | 5 slow 5xx | 6 no answer (client timeout)
+   | 7 2xx, response body shorter than its Content-Length | 8 2xx, reset after the headers | 9 2xx, body stalls.
+   The outcome of an attempt is its status (post: `resp.StatusCode`; the response body is drained best-effort,
+   errors ignored): 7-9 are successes. *)
 
-Definition kind_outcome (k : N) : outcome := if (N.eqb k 0 || N.eqb k 4)%bool then Ok2xx else Failed.
+Definition kind_outcome (k : N) : outcome :=
+  if (N.eqb k 0 || N.eqb k 4 || N.eqb k 7 || N.eqb k 8 || N.eqb k 9)%bool then Ok2xx else Failed.
 
 Fixpoint pos_where (p : ev -> bool) (l : list ev) (i : nat) : option nat :=
   match l with
